@@ -312,6 +312,35 @@ def run(ctx):
             worst["lyap_agree"] = max(worst["lyap_agree"], ag)
             if not ag <= TOL_AGREE:
                 ctx.fail("lyap_methods_disagree", "doubling and bartels-stewart differ", inp, [np.asarray(X).tolist(), Xb.tolist()], "relative difference %.3g" % ag)
+    # exact iteration cap: smallest max_it that does not raise, on systems whose arithmetic is the same in BLAS and
+    # in the model (1x1 or integer nilpotent), then max_it = that, one less, one more
+    for t in range(16 if thorough else 8):
+        if rng.random() < 0.5:
+            n = 1
+            A = [[Fraction(rng.randint(-7, 7), 8)]]; B = [[Fraction(rng.randint(1, 9), 2)]]
+        else:
+            n = rng.randint(2, 4)
+            A, B = gen_lyap(rng, "nilpotent_int", n)
+        Af, Bf = fl(A), fl(B)
+        need = None
+        for mi in range(1, 61):
+            try:
+                me.solve_discrete_lyapunov(np.array(Af), np.array(Bf), max_it=mi); need = mi; break
+            except ValueError:
+                pass
+        ctx.count("lyap:cap_exact_needed=%s" % need)
+        if need is None:
+            continue
+        for mi in (need - 1, need, need + 1):
+            try:
+                X = me.solve_discrete_lyapunov(np.array(Af), np.array(Bf), max_it=mi); status = "ok"
+            except ValueError:
+                X, status = None, "ValueError"
+            Xl = np.atleast_2d(X).tolist() if status == "ok" else []
+            cases.append(tup(zl(mi), natlit(n), flist2(Af), flist2(Bf), blit(status == "ok"), flist2(Xl) if Xl else "(@nil (list float))"))
+            meta.append({"fn": "solve_discrete_lyapunov", "kind": "cap_exact", "n": n, "A": A, "B": B, "max_it": mi})
+            ctx.case(("lyap_cap", n, str(A), str(B), mi), nontrivial=(status == "ok"))
+            ctx.count("lyap:kind=cap_exact"); ctx.count("lyap:status=%s" % status)
     ok = ("fun c => let '(max_it, n, A, B, okf, X) := c in "
           "match solve_discrete_lyapunov LYAP_TOL max_it n A B with "
           "| Some (_, G) => okf && Fss_close VTOL G X | None => negb okf end")
